@@ -228,6 +228,12 @@ def wf_raw(v: View, cname, tag="", bound=None):
         cl.append(("W11-bond-changes-are-descriptors", FA([b, c], z3.Implies(hyp, ODescrS.is_DSome(v.bc_slot(b, c))), patterns=[v.bc_slot_has(b, c)])))
         cl.append(("W11-bond-changes-centred", FA([b, c], z3.Implies(hyp, d_bond_centred_core(dsl, b)), patterns=[v.bc_slot_has(b, c)])))
         cl.append(("W11-bond-changes-well-formed", FA([b, c], z3.Implies(hyp, d_wf(dsl)), patterns=[v.bc_slot_has(b, c)])))
+        # W12: an entry of a change table holds at least one descriptor (enantiomer() / reverse_reaction() rebuild every entry
+        # through set_*_stereo_change(), which rejects a request without descriptors)
+        cl.append(("W12-atom-change-entries-non-empty", FA([x], z3.Implies(v.ac_has(x), z3.Or(*[v.ac_slot_has(x, H.CHG[n]) for n in ("BROKEN", "FLEETING", "FORMED")])),
+                                                             patterns=[v.ac_has(x)])))
+        cl.append(("W12-bond-change-entries-non-empty", FA([b], z3.Implies(v.bc_has(b), z3.Or(*[v.bc_slot_has(b, H.CHG[n]) for n in ("BROKEN", "FLEETING", "FORMED")])),
+                                                             patterns=[v.bc_has(b)])))
     return [(n, c[0], c[1], c[2]) for n, c in cl]
 
 
